@@ -81,22 +81,31 @@ type Remote struct {
 	pending map[string]pendingMsg
 }
 
-// clearPending removes num oldest entries, must hold the r.mu lock.
-func (r *Remote) cleanPending(num int) {
+// clearPending removes num oldest entries that nobody is waiting on (never the
+// entry for the except key), must hold the r.mu lock.
+func (r *Remote) cleanPending(num int, except string) {
 	// Clear oldest entries
 	for _, item := range pendingOldest(r.pending, num) {
+		if item.key == except {
+			continue
+		}
 		delete(r.pending, item.key)
 	}
 }
 
 func (r *Remote) getPendingChan(key string) chan Message {
+	return r.pendingChan(key, false)
+}
+
+// pendingChan returns the channel on which the reply for key is (or will be)
+// delivered. With waiting set, the entry is marked as having a caller blocked
+// on it, which protects it from being discarded when the pending limit is
+// reached: only replies that nobody claimed are ever dropped.
+func (r *Remote) pendingChan(key string, waiting bool) chan Message {
 	r.mu.Lock()
 	defer r.mu.Unlock()
 	if r.pending == nil {
 		r.pending = map[string]pendingMsg{}
-	}
-	if r.PendingLimit > 0 && len(r.pending) >= r.PendingLimit && r.PendingDiscard > 0 {
-		r.cleanPending(r.PendingDiscard)
 	}
 
 	pending, ok := r.pending[key]
@@ -105,7 +114,14 @@ func (r *Remote) getPendingChan(key string) chan Message {
 			msgChan:   make(chan Message, 1),
 			timestamp: time.Now(),
 		}
-		r.pending[key] = pending
+	}
+	if waiting {
+		pending.waiting = true
+	}
+	r.pending[key] = pending
+
+	if r.PendingLimit > 0 && len(r.pending) >= r.PendingLimit && r.PendingDiscard > 0 {
+		r.cleanPending(r.PendingDiscard, key)
 	}
 	return pending.msgChan
 }
@@ -138,12 +154,16 @@ func (r *Remote) Serve() error {
 func (r *Remote) receive(ctx context.Context, ID json.RawMessage) (*Message, error) {
 	key := string(ID)
 	select {
-	case msg := <-r.getPendingChan(key):
+	case msg := <-r.pendingChan(key, true):
 		r.mu.Lock()
 		delete(r.pending, key)
 		r.mu.Unlock()
 		return &msg, nil
 	case <-ctx.Done():
+		// Nobody is waiting for this reply anymore.
+		r.mu.Lock()
+		delete(r.pending, key)
+		r.mu.Unlock()
 		return nil, ctx.Err()
 	}
 }
